@@ -38,7 +38,14 @@ _scratch = None
 def scratch():
     global _scratch
     if _scratch is None:
-        _scratch = tempfile.mkdtemp(prefix="imaged11_verif.%d." % os.getpid(), dir="/var/tmp")
+        # a descendant process (pool worker, child script) nests its directory in the top process's one: workers end without
+        # running atexit handlers and left their directories behind
+        root = os.environ.get("VERIF_SCRATCH_ROOT", "")
+        if root and os.path.isdir(root):
+            _scratch = tempfile.mkdtemp(prefix="p%d." % os.getpid(), dir=root)
+        else:
+            _scratch = tempfile.mkdtemp(prefix="imaged11_verif.%d." % os.getpid(), dir="/var/tmp")
+            os.environ["VERIF_SCRATCH_ROOT"] = _scratch
         atexit.register(shutil.rmtree, _scratch, True)
     return _scratch
 
